@@ -16,7 +16,7 @@ FreeSet(E) == UNION {FreeOf(x) : x \in E}
 
 Coords == {<<b, E>> : b \in 1..Len(Bases), E \in Erasures}
 CasesOf(k) == LET cm == Agree(Bases[k[1]], FreeSet(k[2]), TRUE)
-              IN {[pols |-> ps, base |-> Bases[k[1]], erase |-> k[2], compl |-> cm] : ps \in PolSets}
+              IN {[pols |-> ps, base |-> Bases[k[1]], erase |-> k[2], compl |-> cm] : ps \in PolSetsL}
 
 Init == coord \in Coords /\ c = <<>>
 Next == c = <<>> /\ c' \in CasesOf(coord) /\ UNCHANGED coord
